@@ -101,9 +101,13 @@ def factory_for(pd, kind):
     from quantum_gates._gates.integrator import Integrator
     key = json.dumps(pd)
     if key not in _OBJECTS:
+        # the public way to get the elementary gates of a pulse: a `Gates` object (its factories share the gate set's integrator);
+        # every pulse description of the run gets its own, all alive at the same time
+        from quantum_gates._gates.gates import Gates
+        from types import SimpleNamespace
         pulse = gc.build_pulse(pd)
-        integ = Integrator(pulse)
-        _OBJECTS[key] = (pulse, F.SingleQubitGateFactory(integ), F.CRFactory(integ))
+        g = Gates(pulse)
+        _OBJECTS[key] = (pulse, SimpleNamespace(construct=g.single_qubit_gate, gates=g), SimpleNamespace(construct=g.CR, gates=g))
     pulse, sq, cr = _OBJECTS[key]
     return pulse, (sq if kind == "single" else cr)
 
@@ -384,10 +388,11 @@ def make(rng, kind):
             return 0.0, 0.0
         return t1, rng.uniform(0.2, 1.999) * t1
     T1, T2 = pair()
+    # the depolarising error is exactly 0 in one case out of five (then, with T1 = 0 as well, pure dephasing is the only noise left)
     if kind == "single":
-        return [th, phi, rng.uniform(1e-5, 5e-2), T1, T2]
+        return [th, phi, 0.0 if rng.random() < 0.2 else rng.uniform(1e-5, 5e-2), T1, T2]
     T1t, T2t = pair()
-    return [th, phi, rng.uniform(0.5, 8) * TG, rng.uniform(1e-3, 0.1), T1, T2, T1t, T2t]
+    return [th, phi, rng.uniform(0.5, 8) * TG, 0.0 if rng.random() < 0.2 else rng.uniform(1e-3, 0.1), T1, T2, T1t, T2t]
 
 
 def main(ctx):
@@ -437,6 +442,30 @@ def main(ctx):
         fails.append(("boundary", ["constant"], [g, T1, T1b],
                       [f"T1-limited boundary: standard_gates.{g} with T1={T1!r}, T2=2*T1 returns non-finite entries "
                        f"(rounding makes the radicand of the dephasing strength negative)"]))
+    # a second request served by the same gate set while the first is inside its numerical integration (forced thread interleaving):
+    # under stateless injected draws the first sample equals the sample taken alone
+    from qgv import interleave as IL
+    for _ in range(12 if ctx.thorough else 4):
+        ka, kb = rng.choice(["single", "cr"]), rng.choice(["single", "cr"])
+        A, B = make(rng, ka), make(rng, kb)
+        if A[0] == 0.0:
+            A[0] = 0.7
+        ga, gb = ("single_qubit_gate" if ka == "single" else "CR"), ("single_qubit_gate" if kb == "single" else "CR")
+        try:
+            GA, Gref, fired, errB = IL.interleaved(ga, A, gb, B)
+            dev = float(np.abs(GA - Gref).max()) if np.isfinite(Gref).all() else 0.0
+            bad = None
+            if errB:
+                bad = f"the second request raised {errB}"
+            elif not dev <= 1e-12:
+                bad = (f"{ga}{tuple(A)} sampled while {gb}{tuple(B)} was served by the same gate set inside its integration differs from the "
+                       f"same request served alone by {dev:.3e} (same injected draws): the sample depends on another request's arguments")
+        except Exception as e:                  # noqa
+            bad = f"raised {type(e).__name__}: {e}"
+        ctx.count()
+        hist["interleaved"] = hist.get("interleaved", 0) + 1
+        if bad:
+            fails.append(("interleaved", ["user-smooth-hooked"], [ga, A, gb, B], [bad]))
     n_ex, ex_bad = exact_sampler_cases(rng, 12 if ctx.thorough else 3)
     ctx.count(n_ex)
     hist["exact-samplers"] = n_ex
@@ -496,6 +525,13 @@ def replay(ctx, path):
         return 0 if np.isfinite(G).all() else 1
     if rp["gate"] == "channel":
         print("Monte-Carlo channel test: re-run the check"); return 1
+    if rp["gate"] == "interleaved":
+        from qgv import interleave as IL
+        ga, A, gb, B = rp["args"]
+        GA, Gref, fired, errB = IL.interleaved(ga, A, gb, B)
+        dev = float(np.abs(GA - Gref).max())
+        print(f"{ga}{tuple(A)} with {gb}{tuple(B)} served inside its integration (hook fired {fired}x, error {errB}): differs from the request alone by {dev:.3e}")
+        return 1 if (errB or not dev <= 1e-12) else 0
     if rp["gate"].startswith("exact:"):
         print(rp["gate"], rp["args"]); print(rp["failure"][0][:600])
         import random
